@@ -4,8 +4,9 @@ import Blue.Proofs.Varint
     may be inserted at ANY field boundary of ANY buffer — the bytes before it need only be what
     the field iterator reads as complete fields (whatever their payloads: malformed, non-canonical,
     unknown themselves), the bytes after it are arbitrary (also truncated or hostile) — and the
-    struct unpacks to the same value or the same error.  The same inside a nested message, at any
-    depth (`nested_frame_congr` composes). -/
+    struct unpacks to the same value or the same error.  The same inside a nested message, one level
+    (`unpackMsg_unknown_nested`); `nested_frame_congr` composes, and `Blue/Proofs/ProtoDeep.lean`
+    iterates it over a path of nested frames of any length. -/
 namespace Blue.ProtoMsg
 open Blue.Wire Blue.Varint
 
